@@ -1,7 +1,7 @@
 """C07 driver: chord recognition."""
 import re
 from mingus.core import chords, intervals
-from .common import call, nm, txt, names, Shape
+from .common import spoil, AGAIN, call, nm, txt, names, Shape
 
 _ROOT = re.compile(r"^([A-G][#b]*)(.*)$", re.S)
 
@@ -52,8 +52,14 @@ def long_entry(name):
     return {"poly": False, "text": name, "root": list(root), "meaning": meaning, "ord": ordw}
 
 
-def both(chord, shared=False, **kw):
+def both(chord, shared=False, edited=False, **kw):
     out = {"sok": True, "lok": True, "serr": "", "lerr": "", "short": [], "long": []}
+    if edited:      # both forms asked once before, and the caller edited the answers it was handed
+        for flag in (True, False):
+            try:
+                spoil(chords.determine(list(chord), flag, **kw))
+            except Exception:
+                pass
     if shared:      # one list object handed to both calls, as a caller holding a chord would do
         chord = list(chord)
         _list = lambda x: x
@@ -86,8 +92,11 @@ def run_case(c):
         R.append(call("determine", dict(i, flags="default"), lambda: both(chord)))
         R.append(call("determine", dict(i, flags="no_polychords"), lambda: both(chord, no_polychords=True)))
         R.append(call("determine", dict(i, flags="default", same_list=True), lambda: both(chord, shared=True)))
+        R.append(call("determine", dict(i, flags="default", asked=AGAIN), lambda: both(chord, edited=True)))
     elif k in ("triple", "random", "theory", "extended"):
         R.append(call("determine", {"kind": k, "chord": ch, "base": [], "k": 0, "flags": "default"}, lambda: both(chord)))
+        if len(chord) == 3 or c.get("cid", 0) % 4 == 0:
+            R.append(call("determine", {"kind": k, "chord": ch, "base": [], "k": 0, "flags": "default", "asked": AGAIN}, lambda: both(chord, edited=True)))
         if len(chord) >= 4:
             R.append(call("determine", {"kind": k, "chord": ch, "base": [], "k": 0, "flags": "default", "same_list": True}, lambda: both(chord, shared=True)))
     elif k == "small":
